@@ -22,6 +22,11 @@ fn v_expected_token(c: &Connection) -> [u8; 4] {
     c.state.own_token().unwrap_or(TOKEN_NONE).0
 }
 
+/// the byte budget can_fit_chunk admits for the chunk area
+fn v_fit_limit() -> usize {
+    MAX_PACKETSIZE - protocol::HEADER_SIZE
+}
+
 fn v_token_ok(t: [u8; 4]) -> bool {
     t != [0xff; 4]
 }
